@@ -576,3 +576,77 @@ Ltac zbool_lia :=
          | |- context [?a =? ?b] => destruct (Z.eqb_spec a b)
          end;
   cbn [negb andb orb]; first [reflexivity | lia].
+
+(* loop_scan2_all / loop_map2_all / loop_map1_all with the loop condition given by its truth values instead of its text
+   (`i < N`, `N > i`, `i != N` all qualify; the two premises are closed by `intros; zbool_lia`) *)
+Lemma loop_scan2_all_c {C R : Type} (g : Z -> Z -> C -> Z * C) (a b : list Z)
+      (cond : list Z * C * Z -> bool) (body : list Z * C * Z -> res (flow (list Z * C * Z) R))
+      fuel c0 out0 :
+  length b = length a -> length out0 = length a -> (length a <= fuel)%nat ->
+  (forall out c j, (j < length a)%nat -> cond (out, c, Z.of_nat j) = true) ->
+  (forall out c, cond (out, c, Z.of_nat (length a)) = false) ->
+  (forall out c j, (j < length a)%nat -> length out = length a ->
+     body (out, c, Z.of_nat j) =
+     Done (Continue (list_set out j (fst (g (nth j a 0) (nth j b 0) c)),
+                     snd (g (nth j a 0) (nth j b 0) c), Z.of_nat j + 1))) ->
+  while_loop fuel cond body (out0, c0, 0) =
+  Done (Exited (fst (scan2 g a b c0), snd (scan2 g a b c0), Z.of_nat (length a))).
+Proof.
+  intros Hb Ho Hf Hct Hcf Hbody.
+  rewrite (loop_writes0 (fun out c j => (out, c, Z.of_nat j)) (fun j => (0 + j)%nat)
+             (fun j c => g (nth j a 0) (nth j b 0) c) cond body (length a) (length a) fuel out0 c0);
+    try first [reflexivity | assumption].
+  - rewrite run_writes_up by (rewrite Ho; lia). cbn [fst snd Nat.add firstn app].
+    rewrite skipn_all2 by lia. rewrite app_nil_r.
+    rewrite (scan_idx_scan2 g a b) by (intros; reflexivity || (symmetry; assumption)).
+    reflexivity.
+  - intros out c j Hj Hl. rewrite Hbody by assumption. cbn [Nat.add].
+    rewrite Nat2Z.inj_succ. reflexivity.
+Qed.
+
+Lemma loop_map2_all_c {R : Type} (h : Z -> Z -> Z) (a b : list Z)
+      (cond : list Z * Z -> bool) (body : list Z * Z -> res (flow (list Z * Z) R)) fuel out0 :
+  length b = length a -> length out0 = length a -> (length a <= fuel)%nat ->
+  (forall out j, (j < length a)%nat -> cond (out, Z.of_nat j) = true) ->
+  (forall out, cond (out, Z.of_nat (length a)) = false) ->
+  (forall out j, (j < length a)%nat -> length out = length a ->
+     body (out, Z.of_nat j) = Done (Continue (list_set out j (h (nth j a 0) (nth j b 0)), Z.of_nat j + 1))) ->
+  while_loop fuel cond body (out0, 0) =
+  Done (Exited (fst (scan2 (fun x y (_ : unit) => (h x y, tt)) a b tt), Z.of_nat (length a))).
+Proof.
+  intros Hb Ho Hf Hct Hcf Hbody.
+  rewrite (loop_writes0 (fun out (_ : unit) j => (out, Z.of_nat j)) (fun j => (0 + j)%nat)
+             (fun j c => (h (nth j a 0) (nth j b 0), tt)) cond body (length a) (length a) fuel out0 tt);
+    try first [reflexivity | assumption].
+  - rewrite run_writes_up by (rewrite Ho; lia). cbn [fst snd Nat.add firstn app].
+    rewrite skipn_all2 by lia. rewrite app_nil_r.
+    rewrite (scan_idx_scan2 (fun x y (_ : unit) => (h x y, tt)) a b) by (intros; reflexivity || (symmetry; assumption)).
+    reflexivity.
+  - intros out c j Hj. apply Hct. exact Hj.
+  - intros out c. apply Hcf.
+  - intros out c j Hj Hl. rewrite Hbody by assumption. cbn [Nat.add fst snd].
+    rewrite Nat2Z.inj_succ. reflexivity.
+Qed.
+
+Lemma loop_map1_all_c {R : Type} (h : Z -> Z) (l : list Z)
+      (cond : list Z * Z -> bool) (body : list Z * Z -> res (flow (list Z * Z) R)) fuel out0 :
+  length out0 = length l -> (length l <= fuel)%nat ->
+  (forall out j, (j < length l)%nat -> cond (out, Z.of_nat j) = true) ->
+  (forall out, cond (out, Z.of_nat (length l)) = false) ->
+  (forall out j, (j < length l)%nat -> length out = length l ->
+     body (out, Z.of_nat j) = Done (Continue (list_set out j (h (nth j l 0)), Z.of_nat j + 1))) ->
+  while_loop fuel cond body (out0, 0) = Done (Exited (map h l, Z.of_nat (length l))).
+Proof.
+  intros Ho Hf Hct Hcf Hbody.
+  rewrite (loop_writes0 (fun out (_ : unit) j => (out, Z.of_nat j)) (fun j => (0 + j)%nat)
+             (fun j c => (h (nth j l 0), tt)) cond body (length l) (length l) fuel out0 tt);
+    try first [reflexivity | assumption].
+  - rewrite run_writes_up by (rewrite Ho; lia). cbn [fst snd Nat.add firstn app].
+    rewrite skipn_all2 by lia. rewrite app_nil_r.
+    rewrite (scan_idx_scan1 (fun x (_ : unit) => (h x, tt)) l) by (intros; reflexivity).
+    rewrite scan1_map. reflexivity.
+  - intros out c j Hj. apply Hct. exact Hj.
+  - intros out c. apply Hcf.
+  - intros out c j Hj Hl. rewrite Hbody by assumption. cbn [Nat.add fst snd].
+    rewrite Nat2Z.inj_succ. reflexivity.
+Qed.
